@@ -281,13 +281,15 @@ func (f *relayFwd) busiest() *fwdConn {
 // ---- broker front: records (and can tamper with) rendezvous traffic ---------------------
 
 type brokerFront struct {
-	ln          net.Listener
-	mu          sync.Mutex
-	offers      []string // SDP offers seen in client polls
-	answers     []string // answers seen from proxies
-	polls       int64
-	clientPolls int64
-	tamperOffer func(pollResponseBody []byte) []byte
+	ln           net.Listener
+	mu           sync.Mutex
+	offers       []string // SDP offers seen in client polls
+	answers      []string // answers seen from proxies
+	polls        int64
+	clientPolls  int64
+	tamperOffer  func(pollResponseBody []byte) []byte
+	tamperAnswer func(clientResponseBody []byte) []byte
+	refuse       int32 // 1 = answer every request with HTTP 500
 }
 
 func startFront(brokerAddr string) (*brokerFront, error) {
@@ -299,6 +301,22 @@ func startFront(brokerAddr string) (*brokerFront, error) {
 	target, _ := url.Parse("http://" + brokerAddr)
 	rp := httputil.NewSingleHostReverseProxy(target)
 	rp.ModifyResponse = func(resp *http.Response) error {
+		if resp.Request.URL.Path == "/client" {
+			bf.mu.Lock()
+			t := bf.tamperAnswer
+			bf.mu.Unlock()
+			if t != nil {
+				body, err := ioutil.ReadAll(resp.Body)
+				resp.Body.Close()
+				if err != nil {
+					return err
+				}
+				body = t(body)
+				resp.Body = ioutil.NopCloser(bytes.NewReader(body))
+				resp.ContentLength = int64(len(body))
+				resp.Header.Set("Content-Length", fmt.Sprint(len(body)))
+			}
+		}
 		if resp.Request.URL.Path == "/proxy" {
 			body, err := ioutil.ReadAll(resp.Body)
 			resp.Body.Close()
@@ -321,6 +339,13 @@ func startFront(brokerAddr string) (*brokerFront, error) {
 	mux.HandleFunc("/", func(w http.ResponseWriter, r *http.Request) {
 		body, _ := ioutil.ReadAll(r.Body)
 		r.Body = ioutil.NopCloser(bytes.NewReader(body))
+		if atomic.LoadInt32(&bf.refuse) == 1 {
+			if r.URL.Path == "/client" {
+				atomic.AddInt64(&bf.clientPolls, 1)
+			}
+			w.WriteHeader(http.StatusInternalServerError)
+			return
+		}
 		switch r.URL.Path {
 		case "/client":
 			atomic.AddInt64(&bf.clientPolls, 1)
@@ -537,14 +562,19 @@ func (s *system) startProxy() (*proc, error) {
 var cmethodRe = regexp.MustCompile(`CMETHOD snowflake socks5 (\S+)`)
 
 func (s *system) startClient(extra ...string) (*proc, string, error) {
-	os.MkdirAll(filepath.Join(s.dir, "client-state"), 0700)
 	args := []string{"-url", "http://" + s.frontAddr + "/", "-ice", "stun:" + s.stunAddr, "-log", filepath.Join(s.dir, "client.log"), "-max", "2"}
 	if s.keepLocal {
 		args = append(args, "-keep-local-addresses")
 	}
 	args = append(args, extra...)
-	p, err := s.start("client", args, []string{"TOR_PT_MANAGED_TRANSPORT_VER=1", "TOR_PT_CLIENT_TRANSPORTS=snowflake",
-		"TOR_PT_STATE_LOCATION=" + filepath.Join(s.dir, "client-state"), "TOR_PT_EXIT_ON_STDIN_CLOSE=0"})
+	return s.startClientArgs("client", args)
+}
+
+func (s *system) startClientArgs(name string, args []string) (*proc, string, error) {
+	state := filepath.Join(s.dir, name+"-state")
+	os.MkdirAll(state, 0700)
+	p, err := s.start(name, args, []string{"TOR_PT_MANAGED_TRANSPORT_VER=1", "TOR_PT_CLIENT_TRANSPORTS=snowflake",
+		"TOR_PT_STATE_LOCATION=" + state, "TOR_PT_EXIT_ON_STDIN_CLOSE=0"})
 	if err != nil {
 		return nil, "", err
 	}
